@@ -174,6 +174,18 @@ def constInit? : Sexp → Option Bool
   | .list [.atom "constinit", b] => b.bool?
   | _ => none
 
+def payShape? : Sexp → Option PayShape
+  | .atom "other" => some .other
+  | .list [.atom "tuple", n] => n.nat?.map .tuple
+  | _ => none
+
+def holder? : Sexp → Option Holder
+  | .atom "scopedValue" => some .scopedValue
+  | .atom "scopedOverride" => some .scopedOverride
+  | .atom "propOverride" => some .propOverride
+  | .atom "genValue" => some .genValue
+  | _ => none
+
 def obj? (gen : List Nat × List Nat) (ci : Bool) : Sexp → Option Obj
   | .list [.atom "fut", r, o] => do some (.fut { inRepr := (← r.bool?), out := (← outc? o) })
   | .list [.atom "task", o, dopen, d, al, it] => do
@@ -181,6 +193,7 @@ def obj? (gen : List Nat × List Nat) (ci : Bool) : Sexp → Option Obj
   | .list [.atom "batch", c, e, n] => do some (.batch { computed := (← c.bool?), err := (← e.bool?), items := (← n.nat?) })
   | .list [.atom "sched", t, b, a] => do some (.sched { tasks := (← t.nat?), batches := (← b.nat?), active := (← a.bool?) })
   | .list [.atom "plain"] => some .plain
+  | .list [.atom "holder", k, p] => do some (.holder (← holder? k) (← payShape? p))
   | .list [.atom "gen"] => some (.asyncGen gen.1 gen.2)
   | .list [.atom "constinit"] => some (.constInit ci)
   | .list [.atom "fe", n, x, ta, tg] => do
@@ -246,6 +259,8 @@ def shown? : Sexp → Option Shown
 def res? : Sexp → Option Res
   | .list [.atom "ok", s] => (shown? s).map .ok
   | .list [.atom "raised", .atom "AttributeError"] => some (.raised .attributeError)
+  | .list [.atom "raised", .atom "TypeError"] => some (.raised .typeError)
+  | .list [.atom "raised", .atom "Misdescribed"] => some (.raised .misdescribed)
   | .list (.atom "raised" :: _) => some (.raised .other)
   | _ => none
 
@@ -279,7 +294,7 @@ def handleRepr (id : Nat) (hdr body : List Sexp) : String :=
           else some s!"{o.kind}/{o.scen}/{o.opName}: model={repr m} impl={repr o.res}"
         -- what is named in the clause: the operation, for runs under a DUMP_* option the option
         let what := if o.kind == "dumpAll" then o.scen else o.opName
-        (corr, reprClause o.kind what o.res, reprClause o.kind what m)
+        (corr, reprClause o.kind what o.obj o.res, reprClause o.kind what o.obj m)
       verdict id (judged.filterMap (·.1)).head? (firstBad (judged.map (·.2.1))) (firstBad (judged.map (·.2.2)))
     | none => verdict id (some "unparsable repr observation") "ok" "ok"
   | _, _ => verdict id (some "unparsable repr header") "ok" "ok"
